@@ -102,7 +102,7 @@ type Exec struct {
 	// variables, atomics ...) reachable until the execution ends: otherwise the garbage collector
 	// may free it mid-execution and hand the same address to a new object, which would then
 	// inherit stale state - a timing-dependent (GC-dependent) source of nondeterminism.
-	pinned []any
+	pinned  []any
 	Races   []string
 	raceSet map[string]bool
 
